@@ -5,6 +5,8 @@ package main
 // guard cut the path from that function's entry to the effect (resp. to the call leading to it).
 
 import (
+	"fmt"
+	"os"
 	"go/types"
 	"sort"
 	"strings"
@@ -111,7 +113,14 @@ func (p *Prog) EffectSites(entry *ssa.Function, id string, isEffect func(ssa.Ins
 		}
 		stack[e.Fn] = true
 		defer delete(stack, e.Fn)
+		var dead map[*ssa.BasicBlock]bool
+		if e.Parent != nil {
+			dead = e.deadBlocks() // branches not taken in this calling context (a constant flag or an absent list handed in)
+		}
 		for _, b := range e.Fn.Blocks {
+			if dead[b] {
+				continue
+			}
 			for _, in := range b.Instrs {
 				if name, ok := isEffect(in); ok {
 					out = append(out, EffectSite{e, in, name})
@@ -141,7 +150,14 @@ func (p *Prog) EffectSitesBelow(env *Env, id string, isEffect func(ssa.Instructi
 		}
 		stack[e.Fn] = true
 		defer delete(stack, e.Fn)
+		var dead map[*ssa.BasicBlock]bool
+		if e.Parent != nil {
+			dead = e.deadBlocks() // branches not taken in this calling context (a constant flag or an absent list handed in)
+		}
 		for _, b := range e.Fn.Blocks {
+			if dead[b] {
+				continue
+			}
 			for _, in := range b.Instrs {
 				if name, ok := isEffect(in); ok {
 					out = append(out, EffectSite{e, in, name})
@@ -175,10 +191,37 @@ func (e *Env) CutAt(at ssa.Instruction, pred func(Fact) bool, assume []Fact) ([]
 	if r, ok := at.(*ssa.Return); ok && isSuccessReturn(r) {
 		cut = errorEdges(r) // only for a return that may succeed: an error exit is reached exactly through those edges
 	}
+	// what is known at the instruction itself about values that cannot change (nil-ness and comparisons of parameters): a
+	// path that contradicts it does not lead here (`if dst != nil { check }; …; if dst != nil { credit }`)
+	var own []Fact
+	for _, f := range e.factsAt(at.Block(), at, assume) {
+		if !f.Lin && len(f.Or) == 0 && !strings.ContainsAny(f.Atom, "*#") && strings.Contains(f.Atom, "P:") {
+			own = append(own, f)
+		}
+	}
+	// facts computed for a block no feasible path reaches come in both polarities: they say nothing
+	pol := map[string]bool{}
+	for _, a := range own {
+		if p0, seen := pol[a.Atom]; seen && p0 != a.Pos {
+			own = nil
+			break
+		}
+		pol[a.Atom] = a.Pos
+	}
+	if os.Getenv("VDEBUG") == "cutat" {
+		for _, a := range own {
+			fmt.Println("DEBUG cutat own", e.Fn.Name(), e.P.InstrPos(at), a.Key())
+		}
+	}
 	var used []Fact
 	usedEdges := map[string][]edge{}
 	for ed, fs := range ef {
 		for _, f := range fs {
+			for _, a := range own {
+				if contradicts(f, a) {
+					cut[ed] = true
+				}
+			}
 			if sat(pred, f) {
 				cut[ed] = true
 				if _, seen := usedEdges[f.Key()]; !seen {
